@@ -499,7 +499,7 @@ func FuzzHandle(f *testing.F) {
 		"1|get|c13hm:NS/r0", "2|query|query c13bb:NS/", "3|sub|query c13hm:NS/ where N > 0", "4|qsub|query c13bb:NS/r",
 		"5|create|c13hm:NS/n0|J{\"a\":1}", "6|update|c13bb:NS/r0|J{\"Name\":\"y\"}", "7|insert|c13hm:NS/r0|{\"N\":5}", "7|insert|c13hm:NS/r3|{\"Tags\":[\"x\"]}",
 		"7|insert|c13hm:NS/r1|{\"a\":1}", "8|delete|c13bb:NS/r0", "s|cancel", "9|cancel", "", "|", "||", "1|nope|x", "1|create|c13hm:NS/x", "1|create|c13hm:NS/x|J",
-		"1|create|c13hm:NS/x|\xff{}", "1|get|api:endpoints", "1|query|query c13hm:NS/ where (", "1|update|c13bb:NS/r2|C\xa1aa\x01",
+		"1|create|c13hm:NS/x|\xff{}", "1|get|api:endpoints", "1|query|query c13hm:NS/ where (", "1|update|c13bb:NS/r2|C\xa1aa\x01", "|update|c13bb:NS/r0|J{}}", "u|update|c13hm:NS/r0|J{\"a\":1} x",
 	} {
 		f.Add([]byte(s))
 	}
